@@ -53,7 +53,7 @@ THEOREMS = {
     "C15": ["sim_distance_lookup", "slice_row", "sim_selection_eq_library", "sim_cache_correct", "sim_cache_fresh",
             "shared_cache_counterexample", "radius_exact"],
     "C16": ["split_partition", "random_split_partition", "batches_cover_once", "stats_additive", "min_le_mean_le_max",
-            "evaluator_count_total", "evaluator_ordered", "getStats_count_sum"],
+            "evaluator_count_total", "evaluator_ordered", "getStats_count_sum", "count_partition", "evaluator_count_total_nn", "evaluator_ordered_nn", "credited_eq_creditedBy"],
     "C17": ["rejected_noop", "train_rejected_noop", "query_rejected_noop", "rejected_then_continue"],
     "C18": ["series_disambiguation_fit", "series_disambiguation_predict", "column_roundtrip", "caller_cells_untouched", "arms_by_value"],
     "C19": ["copy_bisimilar", "copy_independent", "copy_equal", "shared_copy_counterexample", "noninterference_private"],
@@ -82,7 +82,7 @@ IMPORTS = {
     "C13": ["MabModel.Props.C13", "MabModel.Props.C13b"],
     "C14": ["MabModel.Props.C14"],
     "C15": ["MabModel.Props.C15"],
-    "C16": ["MabModel.Props.C16"],
+    "C16": ["MabModel.Props.C16", "MabModel.Props.C16b"],
     "C17": ["MabModel.Props.C17"],
     "C18": ["MabModel.Props.C18"],
     "C19": ["MabModel.Props.C19"],
